@@ -33,6 +33,7 @@ class SymEnv:
         self.calls: list[str] = []
         self.call_syms = call_syms or {}
         self.log: list[tuple[str, Rat]] = []
+        self.trig: dict[str, Rat] = {}  # symbol name -> argument
 
     # lvalue key
     def key(self, e: ast.expr) -> str:
@@ -82,6 +83,11 @@ class SymEnv:
                 return self.ev(e.args[0]) * self.ev(e.args[1])
             if cn in ("np.sqrt", "sqrt", "math.sqrt") and len(e.args) == 1:
                 return sqrt_of(self.ev(e.args[0]))
+            if cn in ("np.sin", "np.cos", "sin", "cos", "math.sin", "math.cos") and len(e.args) == 1:
+                a = self.ev(e.args[0])
+                name = f"{cn.split('.')[-1]}[{a!r}]"
+                self.trig[name] = a
+                return Rat.sym(name)
             if cn in ("exp", "np.exp", "math.exp", "log", "np.log", "math.log") and len(e.args) == 1:
                 a = self.ev(e.args[0])
                 return Rat.sym(f"{cn.split('.')[-1]}[{a!r}]")
@@ -102,6 +108,12 @@ class SymEnv:
         if isinstance(st, ast.Assign) and len(st.targets) == 1:
             t = st.targets[0]
             if isinstance(t, ast.Tuple):
+                if isinstance(st.value, ast.Tuple) and len(t.elts) == len(st.value.elts):
+                    vals = [self.ev(x) for x in st.value.elts]
+                    for tt, vv in zip(t.elts, vals):
+                        self.env[self.key(tt)] = vv
+                        self.log.append((self.key(tt), vv))
+                    return
                 raise AnalysisError(f"symbolic execution: tuple assignment {norm(st)[:60]}")
             v = self.ev(st.value)
             self.env[self.key(t)] = v
